@@ -559,6 +559,11 @@ def _template(spec):
             eng0 = dict(scenario.toml_dict(B=spec.B)["engine"])
             kw["extra_engines"] = {"engine0": eng0}
             kw["ensemble_engines"] = [["engine0"]] + [["engine"]] * (spec.B - 1)
+        if spec.engine_layout == "multi":
+            # [0-] on its own engine type and one ensemble that lists two engine types (multi-engine ensemble)
+            eng = dict(scenario.toml_dict(B=spec.B)["engine"])
+            kw["extra_engines"] = {"engine0": dict(eng), "engine1": dict(eng)}
+            kw["ensemble_engines"] = [["engine0"], ["engine"], ["engine", "engine1"]] + [["engine"]] * (spec.B - 3)
         kw.update(spec.extra)
         scenario.build(d, **kw)
         _TEMPLATES[k] = d
